@@ -44,6 +44,8 @@ def build_opspecs(texts: list[str]) -> list[dict]:
             specs.append({"op": "parse_file", "text": t})
         if j % 4 == 0:
             specs.append({"op": "tokens", "text": t})
+        if j % 8 == 1:
+            specs.append({"op": "tokens_iter", "text": t})
     for a, b in pool.PREFIX_SHARING + pool.ALIASING:
         for t in (a, b):
             specs.append({"op": "parse_string", "text": t, "mode": "exec"})
@@ -59,6 +61,11 @@ def build_opspecs(texts: list[str]) -> list[dict]:
     for t in pool.DEEP:
         specs.append({"op": "parse_string", "text": t, "mode": "exec"})
         specs.append({"op": "parse_file", "text": t})
+    # whole data files (up to 20 kB): only the history engine draws them, a monitored parse of one takes seconds
+    for _rel, content in pool.data_files(20000):
+        if len(content) > pool.MAX_LEN and pool._nesting(content) <= pool.MAX_NEST:
+            specs.append({"op": "parse_string", "text": content, "mode": "exec", "big": True})
+            specs.append({"op": "parse_file", "text": content, "big": True})
     seen = set()
     out = []
     for s in specs:
@@ -71,6 +78,8 @@ def build_opspecs(texts: list[str]) -> list[dict]:
 
 class Workload:
     def __init__(self, specs: list[dict]):
+        self.big = [s for s in specs if s.get("big")]
+        specs = [s for s in specs if not s.get("big")]
         self.specs = specs
         self.small = [s for s in specs if len(s["text"]) <= 60]
         self.pairs = pool.PREFIX_SHARING + pool.ALIASING
@@ -121,7 +130,9 @@ class Workload:
         out: list[dict] = []
         for op in script:
             r = rng.random()
-            if r < p_abort and op["op"] in ("parse_string", "parse_file"):
+            if "text" not in op:
+                out.append(op)
+            elif r < p_abort and op["op"] in ("parse_string", "parse_file"):
                 plain = dict(op)
                 plain["monitor"] = True  # history engine: count steps; schedule engine: always monitored
                 out.append(plain)
@@ -152,7 +163,7 @@ class Workload:
         for n, op in enumerate(out):
             op["id"] = n
         if rng.random() < p_mutate and len(out) >= 2:
-            cands = [op for op in out[:-1] if not op.get("fault") and op["op"] != "tokens"]
+            cands = [op for op in out[:-1] if not op.get("fault") and op["op"] in ("parse_string", "parse_file")]
             if cands:
                 tgt = rng.choice(cands)
                 pos = rng.randrange(tgt["id"] + 1, len(out) + 1)
@@ -189,9 +200,11 @@ class Workload:
             while len(scripts[k]) < want:
                 scripts[k].append(self.pick(rng))
             rng.shuffle(scripts[k])
+            if rng.random() < 0.02:
+                scripts[k].insert(rng.randrange(len(scripts[k]) + 1), {"op": "flood", "n": 40, "tag": f"s{i}_{k}"})
             scripts[k] = self._assign_slots(rng, scripts[k], f"t{k}_")
             scripts[k] = self._add_faults(rng, scripts[k], 0.12, 0.06, 0.15)
-        est = sum(20000 + 3000 * len(op.get("text", "")) for s in scripts for op in s)
+        est = sum(20000 + 3000 * len(op.get("text", "")) + 12000 * op.get("n", 0) for s in scripts for op in s)
         # a slice of the runs pre-empts at bytecode granularity (about 5x the events per line)
         gran = "line"
         if rng.random() < TIERS[tier]["instr_frac"] and sum(len(op.get("text", "")) for s in scripts for op in s) <= 160:
@@ -228,8 +241,14 @@ class Workload:
                 script.append({k: v for k, v in rng.choice(script).items()})
             elif long_history:
                 script.append(dict(rng.choice(self.small)))
+            elif r > 0.985 and self.big:
+                script.append({k: v for k, v in rng.choice(self.big).items() if k != "big"})
+
             else:
                 script.append(self.pick(rng, small_bias=0.55))
+        if rng.random() < 0.04:
+            script.insert(rng.randrange(len(script) // 2 + 1),
+                          {"op": "flood", "n": rng.choice([300, 1200, 3000, 5000]), "tag": f"h{i}"})
         n_faults = rng.choice([0, 1, 1, 2, 3, 4])
         p = n_faults / max(1, len(script))
         script = self._assign_slots(rng, script, "h")
